@@ -805,6 +805,34 @@ fn directed(ctx: &mut Ctx) {
     }
     ctx.shape("d:check".into());
     wide_adds(ctx);
+    long_equations(ctx);
+}
+
+/// equations with 255, 256, 257 and 300 variables (a counter of idle variables kept in a byte would
+/// wrap): one long row sharing variables with short ones, solvable and unsolvable twins
+fn long_equations(ctx: &mut Ctx) {
+    for m in [255usize, 256, 257, 300] {
+        let nv = m + 1;
+        // E: x1 + … + xm = cE ; H: x0 + x1 = cH ; G: x2 = cG ; K: x0 + x2 + x3 = cK
+        let e_vars: Vec<u32> = (1..=m as u32).collect();
+        for (k, consts) in [(0usize, [165u128, 1, 7, 9]), (1, [0, 0, 0, 0]), (2, [1, 1, 1, 1])] {
+            let eqs: Vec<Eq> = vec![
+                (e_vars.clone(), consts[0]),
+                (vec![0, 1], consts[1]),
+                (vec![2], consts[2]),
+                (vec![0, 2, 3], consts[3]),
+            ];
+            run_system(ctx, &format!("d:long-eq:{}:{}", m, k), nv, 8, &eqs, true);
+            let mut r = eqs.clone();
+            r.reverse();
+            run_system(ctx, &format!("d:long-eq:{}:{}:rev", m, k), nv, 8, &r, false);
+        }
+        // two long rows that overlap in all but their first variable
+        let a: Vec<u32> = (0..m as u32).collect();
+        let b: Vec<u32> = (1..=m as u32).collect();
+        run_system(ctx, &format!("d:long-eq2:{}", m), nv, 8, &[(a.clone(), 3), (b.clone(), 5), (vec![0], 1)], true);
+        run_system(ctx, &format!("d:long-eq2u:{}", m), nv, 8, &[(a, 3), (b, 5), (vec![0, m as u32], 1)], false);
+    }
 }
 
 /// `add` over the whole range of `u32` variable indices (no solver call, hence no allocation
